@@ -319,7 +319,7 @@ func waitAvailable(client *c2xfix.Conn, d time.Duration) *packet.AvailableComman
 
 // child: the cyclic-redirect inputs on the real code path; a fatal stack overflow kills this process.
 func child(variant string) {
-	debug.SetMaxStack(32 << 20)
+	debug.SetMaxStack(8 << 20)
 	p := newProxy(true)
 	root := &p.Command().Root
 	switch variant {
